@@ -18,6 +18,7 @@ from io import StringIO
 
 STREAMS = ['gen-events', 'parse-result', 'proxy-calls', 'handler-events', 'malformed-defs']
 THEOREMS = ['handler_gen', 'handler_gen_fresh', 'proxy_accepts_same_calls', 'declared_method_count',
+            'declared_method_accepts', 'std_name_collision_witness',
             'known_reused_unless_replaced', 'generated_attribute_values_need_no_escaping', 'xml_cache_coherent',
             'members_sorted']
 TRUSTED_BASE = [
@@ -30,10 +31,21 @@ TRUSTED_BASE = [
 ASSUMPTIONS = [
     'interface, member names and object paths are valid DBus names and signatures are lists of complete types '
     '(then no generated attribute value needs XML escaping: theorem generated_attribute_values_need_no_escaping)',
-    'interfaces exported by one object have pairwise distinct names, none of them a name of the three standard '
-    'interfaces appended by generateIntrospectionXML',
+    'interfaces exported by one object have pairwise distinct names, none of them a name of the standard '
+    'interfaces generateIntrospectionXML appends (it appends its own block even when the object declares e.g. '
+    'org.freedesktop.DBus.ObjectManager itself: the declared definition still comes back first, but a replacing '
+    'parse leaves the poorer standard definition in the cache - pinned by std_name_collision_witness, covered by '
+    'handler_gen and by the correspondence streams, not judged by the oracle)',
     'the change-notification mode (Property.emits) is not part of the statement: it comes back as a bool '
     '(true/invalidates -> True, false -> False); reported in the distribution, never as a violation',
+    'readings of the statement used by the oracle: (a) the reference is the declaration as generated (names, '
+    'signatures, readable/writeable flags -> read/write/readwrite, one argument per complete type), interfaces are '
+    'matched by NAME (order and extra interfaces are not judged; when several declared interfaces have a method and '
+    'no interface= keyword selects one, any of them may answer); (b) "reused" = what comes back for a known name '
+    'without replacement holds the known definition and the known object is not modified (object identity is not '
+    'demanded); (c) "unless replacement is requested" = the returned interface holds the declared definition (a new '
+    'object or an in-place refresh are both fine) AND a later default-mode parse of the same text sees that '
+    'replaced definition (the docstring of getInterfacesFromXML: known definitions "will be replaced")',
 ]
 RULE = ('one case = one document (path, exported objects, each interface built by a random sequence of add*/del*/'
         'introspectionXml operations with 0-6 members of each kind and signatures from a type-directed generator over '
@@ -44,14 +56,27 @@ BASIC = 'ybnqiuxtdsogh'
 STD_FALLBACK = ['org.freedesktop.DBus.Introspectable', 'org.freedesktop.DBus.Peer',
                 'org.freedesktop.DBus.ObjectManager']
 STD_NAMES = list(STD_FALLBACK)       # refreshed from introspection._intro by run()/replay()
+STD_METHOD_NAMES = ['Introspect', 'Ping', 'GetManagedObjects']
+
+
+def intro_events():
+    """SAX events of introspection._intro (the text of the standard interfaces), parsed like the translator does"""
+    from txdbus import introspection
+    return sax_events('<wrapper>' + introspection._intro + '</wrapper>')[1:-1]
 
 
 def refresh_std():
-    """the names of the standard interfaces generateIntrospectionXML appends (read from the text `_intro`)"""
-    import re
-    from txdbus import introspection
-    names = re.findall(r'<interface\s+name="([^"]+)"', introspection._intro)
+    """names of the standard interfaces generateIntrospectionXML appends and of their methods (from `_intro`)"""
+    try:
+        evs = intro_events()
+        names = [dict(e[2]).get('name') for e in evs if e[0] == 'S' and e[1] == 'interface']
+        methods = [dict(e[2]).get('name') for e in evs if e[0] == 'S' and e[1] == 'method']
+    except Exception:      # noqa - a text that does not parse: keep the pinned names, the streams will report
+        names, methods = [], []
     STD_NAMES[:] = names if names else STD_FALLBACK
+    STD_METHOD_NAMES[:] = methods if methods else ['Introspect', 'Ping', 'GetManagedObjects']
+
+
 PROPS_DEF = {'name': 'org.freedesktop.DBus.Properties', 'ops': [
     ['m', 'Get', 'ss', 'v', 2, 1], ['m', 'Set', 'ssv', '', 3, 0], ['m', 'GetAll', 's', 'a{sv}', 1, 1],
     ['s', 'PropertiesChanged', 'sa{sv}as', 3]]}
@@ -198,6 +223,24 @@ def gen_ops(rng, malformed=False):
             ops.append(new)
             if rng.random() < 0.3:
                 ops.append(['x'])
+    # histories ending "read the XML, delete a member, (read again)" with no mutator after the delete: the only
+    # thing that can invalidate the cached text is the delete itself
+    if not malformed and rng.random() < 0.2:
+        for _ in range(rng.choice([1, 1, 2])):
+            live = {'m': {}, 's': {}, 'p': {}}
+            for op in ops:
+                if op[0] in ('m', 's', 'p'):
+                    live[op[0]][op[1]] = op
+                elif op[0] in ('dm', 'ds', 'dp'):
+                    live[op[0][1]].pop(op[1], None)
+            kinds = [k for k in 'msp' if live[k]]
+            if not kinds:
+                break
+            k = rng.choice(kinds)
+            ops.append(['x'])
+            ops.append(['d' + k, rng.choice(sorted(live[k]))])
+            if rng.random() < 0.5:
+                ops.append(['x'])
     return ops
 
 
@@ -239,7 +282,14 @@ def gen_doc(rng, malformed=False):
     for p in rng.sample(['/a', '/a/b', '/a/bc', '/a/b/c', '/a/b/c/d/e', '/q', '/a/b/d', '/org/x_1/Y/z', '/a/b/c2'],
                         rng.choice([0, 0, 1, 2, 4])):
         if p != path:
-            objs.append([p, []])
+            # other exported objects carry their own interfaces (also interfaces named like ours)
+            other = []
+            if not malformed and rng.random() < 0.45:
+                for _ in range(rng.choice([1, 1, 2])):
+                    on = rng.choice(names) if names and rng.random() < 0.3 else gen_iface_name(rng)
+                    if on not in [d['name'] for d in other] and on not in STD_NAMES and on != PROPS_DEF['name']:
+                        other.append(gen_ifdef(rng, on))
+            objs.append([p, other])
     rng.shuffle(objs)
     # the cache before the parse
     known = []
@@ -256,7 +306,7 @@ def gen_doc(rng, malformed=False):
                 known.append(gen_ifdef(rng, n))
     opath = path
     if rng.random() < 0.06:
-        path = rng.choice(['/', '/a', '/a/b', '/nothing/here', '/a/b/c'])
+        path = rng.choice(['/', '/a', '/a/b', '/nothing/here', '/a/b/c', opath + '/', '/a/', '/a/b/', '/a/b/c/'])
     registered = 0
     if not malformed and not dup and path == opath and rng.random() < 0.15:
         # the exporter lives in the same process: its interface objects themselves are in the cache
@@ -270,8 +320,18 @@ def gen_doc(rng, malformed=False):
         fm = final_members(d)
         for mn, op in fm['m'].items():
             pool.append((d['name'], mn, op[4] if op[4] is not None else 1))
+    foreign = []
+    for p, oifs in objs:
+        if p != opath:
+            for d in oifs:
+                for mn, op in final_members(d)['m'].items():
+                    foreign.append((d['name'], mn, op[4] if op[4] is not None else 1))
     for _ in range(rng.choice([2, 4, 6])):
-        if pool and rng.random() < 0.85:
+        if foreign and rng.random() < 0.3:
+            # a method only another exported object declares: our proxy must not know it
+            iname, mn, cnt = rng.choice(foreign)
+            queries.append([rng.choice([None, None, iname]), mn, cnt])
+        elif pool and rng.random() < 0.85:
             iname, mn, cnt = rng.choice(pool)
             filt = rng.choice([None, None, iname, '', rng.choice(names + STD_NAMES)])
             queries.append([filt, mn, max(0, cnt + rng.choice([0, 0, 0, 1, -1, 2]))])
@@ -439,8 +499,10 @@ def show_iface(i):
     return '!'.join([enc(i.name), ms, ss, ps])
 
 
-def show_result(known_objs, result, cache):
-    new = []
+def show_result(known_objs, result, cache, new=None):
+    """`new` (objects created by earlier parses of the same case, in creation order) is extended in place"""
+    if new is None:
+        new = []
 
     def ref(o):
         for j, k in enumerate(known_objs):
@@ -551,7 +613,6 @@ def observe_doc(case):
             I.DBusInterface.knownInterfaces[k.name] = k
         obs['known_objs'] = known_objs
         obs['known_before'] = [show_iface(k) for k in known_objs]
-        obs['cache_before'] = dict(I.DBusInterface.knownInterfaces)
         obs['declared'] = declared
         try:
             text = X.generateIntrospectionXML(case['path'], exported)
@@ -573,154 +634,205 @@ def observe_doc(case):
             obs['line'] = 'ok %s|%s' % (obs['events'], obs['result'])
             return obs
         obs['recovered'] = res
-        obs['cache_after'] = dict(I.DBusInterface.knownInterfaces)
-        obs['result'] = show_result(known_objs, res, I.DBusInterface.knownInterfaces)
+        new = []
+        obs['result'] = show_result(known_objs, res, I.DBusInterface.knownInterfaces, new)
+        # content as of now: the second parse below may legitimately refresh objects in place
+        import copy
+        obs['recovered_snapshot'] = [copy.deepcopy(r) for r in res]
         obs['known_after'] = [show_iface(k) for k in known_objs]
         obs['calls'] = ','.join(['Q'] + probe_calls(res, case['queries'], case['path']))
-        obs['line'] = 'ok %s|%s|%s' % (obs['events'], obs['result'], obs['calls'])
+        # the same text once more, with the other flag, on the cache the first parse left
+        try:
+            res2 = X.getInterfacesFromXML(text, not bool(case['replace']))
+            obs['recovered2'] = res2
+            obs['result2'] = show_result(known_objs, res2, I.DBusInterface.knownInterfaces, new)
+        except Exception as e:      # noqa
+            obs['result2'] = 'err ' + exc_kind(e)
+        obs['line'] = 'ok %s|%s|%s|2|%s' % (obs['events'], obs['result'], obs['calls'], obs['result2'])
         return obs
 
     return with_clean_cache(body)
 
 
 def split_model_doc(line):
-    """model output line -> (events, result, calls) or (line, None, None)"""
+    """model output line -> (events, result, calls, second result); missing parts are None"""
     if line is None:
-        return None, None, None
+        return None, None, None, None
     if not line.startswith('ok '):
-        return line, None, None
+        return line, None, None, None
     parts = line[3:].split('|')
     ev = parts[0]
     if len(parts) >= 2 and parts[1].startswith('err '):
-        return ev, parts[1], None
-    return ev, '|'.join(parts[1:4]), parts[4] if len(parts) > 4 else None
+        return ev, parts[1], None, None
+    second = '|'.join(parts[6:]) if len(parts) > 6 and parts[5] == '2' else None
+    return ev, '|'.join(parts[1:4]), parts[4] if len(parts) > 4 else None, second
 
 
 # ------------------------------------------------------------------------------------------------ oracle
-def judge_doc(ctx, case, obs):
-    """the property statement on the implementation alone (only for cases inside its assumptions)"""
-    if case.get('malformed') or case.get('dup'):
-        return
-    if 'declared' not in obs or obs.get('declared') is None:
-        return
-    inp = case
-    if 'recovered' not in obs:
-        ctx.violation('roundtrip-raises', 'generate + parse of a valid interface definition raises',
-                      inp, observed=obs.get('line'), expected='a list of interfaces')
-        return
-    declared = obs['declared']
-    rec = obs['recovered']
-    known_objs = obs['known_objs']
-    cache_before = obs['cache_before']
-    # the generator's own knowledge of the definitions (name -> op) for argument counts
-    defs = {}
+def access_of(readable, writeable):
+    """the access mode a Property declared with these flags has (interface.Property docstring)"""
+    if writeable and not readable:
+        return 'write'
+    if writeable and readable:
+        return 'readwrite'
+    return 'read'
+
+
+def spec_of_ifdef(d):
+    """the declared definition as the GENERATOR describes it (never read from the implementation's objects):
+    methods name -> (sigIn, sigOut, nargs, nret), signals name -> (sig, nargs), properties name -> (type, access)"""
+    fm = final_members(d)
+    return {'name': d['name'],
+            'm': {n: (op[2], op[3], op[4], op[5]) for n, op in fm['m'].items()},
+            's': {n: (op[2], op[3]) for n, op in fm['s'].items()},
+            'p': {n: (op[2], access_of(op[3], op[4])) for n, op in fm['p'].items()}}
+
+
+def declared_spec(case):
+    """the interfaces declared for the object at case['path'] (None: nothing exported there)"""
     for p, ifs in case['objs']:
         if p == case['path']:
-            for d in obj_ifdefs(case, ifs):
-                defs[d['name']] = final_members(d)
-    if len(rec) != len(declared) + len(STD_NAMES):
-        ctx.violation('interface-count', 'number of recovered interfaces differs from declared + standard ones',
-                      inp, observed=len(rec), expected=len(declared) + len(STD_NAMES))
+            return [spec_of_ifdef(d) for d in obj_ifdefs(case, ifs)]
+    return None
+
+
+def definition_mismatches(spec, r):
+    """clauses of the statement: same name, methods (signatures, counts), signals, properties (type, access)"""
+    out = []
+    if set(r.methods) != set(spec['m']):
+        out.append(('method-set', 'recovered interface has other methods', sorted(r.methods), sorted(spec['m'])))
+    for n, (si, so, na, nr) in spec['m'].items():
+        q = r.methods.get(n)
+        if q is None:
+            continue
+        if (q.name, q.sigIn, q.sigOut) != (n, si, so):
+            out.append(('method-signature', 'recovered method has other signatures',
+                        [q.name, q.sigIn, q.sigOut], [n, si, so]))
+        if (q.nargs, q.nret) != (na, nr):
+            out.append(('method-counts', 'recovered method has other argument counts than one per declared '
+                        'complete type', [n, q.nargs, q.nret], [n, na, nr]))
+    if set(r.signals) != set(spec['s']):
+        out.append(('signal-set', 'recovered interface has other signals', sorted(r.signals), sorted(spec['s'])))
+    for n, (sg, na) in spec['s'].items():
+        q = r.signals.get(n)
+        if q is None:
+            continue
+        if (q.name, q.sig, q.nargs) != (n, sg, na):
+            out.append(('signal-signature', 'recovered signal differs', [q.name, q.sig, q.nargs], [n, sg, na]))
+    if set(r.properties) != set(spec['p']):
+        out.append(('property-set', 'recovered interface has other properties',
+                    sorted(r.properties), sorted(spec['p'])))
+    for n, (sg, acc) in spec['p'].items():
+        q = r.properties.get(n)
+        if q is None:
+            continue
+        if (q.name, q.sig, q.access) != (n, sg, acc):
+            out.append(('property-type-access', 'recovered property has another type or access mode',
+                        [q.name, q.sig, q.access], [n, sg, acc]))
+    return out
+
+
+def judge_doc(ctx, case, obs):
+    """the property statement on the implementation alone (only for cases inside its assumptions).
+    The reference is the generator's description of the declaration; interfaces are matched by name."""
+    if case.get('malformed') or case.get('dup'):
         return
-    for j, d in enumerate(declared):
-        r = rec[j]
-        if r.name != d.name:
-            ctx.violation('interface-name', 'recovered interface has another name', inp,
-                          observed=r.name, expected=d.name)
+    specs = declared_spec(case)
+    if specs is None or 'known_objs' not in obs:
+        return
+    inp = case
+    if 'text' not in obs:
+        ctx.violation('roundtrip-raises', 'generating the XML of a valid interface definition raises or yields nothing',
+                      inp, observed=obs.get('line'), expected='introspection XML')
+        return
+    if 'recovered' not in obs:
+        ctx.violation('roundtrip-raises', 'parsing the XML generated for a valid interface definition raises',
+                      inp, observed=obs.get('result'), expected='a list of interfaces')
+        return
+    rec = obs['recovered_snapshot']
+    known_names = {}
+    for j, d in enumerate(case['known']):
+        known_names[d['name']] = j          # a later entry of the same name overwrote the earlier one
+    # the declaring side: the exporter's own objects must hold what was declared (argument counting of addMethod /
+    # addSignal, access decoding of Property) - judged against the generator's description
+    for spec, d in zip(specs, obs['declared'] or []):
+        if d.name == spec['name']:
+            for key, what, o, e in definition_mismatches(spec, d):
+                ctx.violation('declared-' + key, 'the declared DBusInterface object differs from the declaration: '
+                              + what, inp, observed=o, expected=e)
+    for spec in specs:
+        name = spec['name']
+        found = [r for r in rec if r.name == name]
+        if not found:
+            ctx.violation('interface-missing', 'no interface of the declared name comes back', inp,
+                          observed=[r.name for r in rec], expected=name)
             continue
-        was_known = d.name in cache_before
-        if was_known and not case['replace']:
-            # reuse: the very object of the cache, untouched
-            k = cache_before[d.name]
-            if r is not k:
+        r = found[0]
+        if name in known_names and not case['replace']:
+            # "interfaces already known locally are reused": what comes back is the known definition, untouched
+            idx = known_names[name]
+            before = obs['known_before'][idx]
+            if show_iface(r) != before:
                 ctx.violation('known-not-reused', 'a locally known interface was not reused although replacement '
-                              'was not requested', inp, observed=show_iface(r), expected='the cached object')
-            idx = [i for i, o in enumerate(known_objs) if o is k]
-            idx = idx[0] if idx else None
-            if idx is not None and obs['known_after'][idx] != obs['known_before'][idx]:
-                ctx.violation('known-mutated', 'the reused cached interface was modified by the parse', inp,
-                              observed=obs['known_after'][idx], expected=obs['known_before'][idx])
-            if obs['cache_after'].get(d.name) is not k:
-                ctx.violation('known-cache-changed', 'the cache entry changed without replacement being requested',
-                              inp, observed=None, expected=None)
+                              'was not requested', inp, observed=show_iface(r), expected=before)
+            if obs['known_after'][idx] != before:
+                ctx.violation('known-mutated', 'the known interface was modified by a parse that should reuse it',
+                              inp, observed=obs['known_after'][idx], expected=before)
             continue
-        if was_known and case['replace']:
-            if r is cache_before[d.name]:
-                ctx.violation('known-not-replaced', 'replacement requested but the cached object was returned', inp)
-            if obs['cache_after'].get(d.name) is not r:
-                ctx.violation('cache-not-updated', 'replacement requested but the cache does not hold the new '
-                              'interface', inp)
-        # same definition
-        fm = defs.get(d.name)
-        if set(r.methods) != set(d.methods):
-            ctx.violation('method-set', 'recovered interface has other methods', inp,
-                          observed=sorted(r.methods), expected=sorted(d.methods))
-        for n, m in d.methods.items():
-            q = r.methods.get(n)
-            if q is None:
+        for key, what, o, e in definition_mismatches(spec, r):
+            ctx.violation(key, what, inp, observed=o, expected=e)
+        for n, q in r.properties.items():
+            ctx.stat('emits comes back as %r' % (q.emits,))
+    # the same text parsed again with the other flag: after a replacing parse a default-mode parse must see the
+    # replaced (= declared) definitions; a replacing parse after a default one must yield the declared definitions
+    if 'recovered2' in obs:
+        rec2 = obs['recovered2']
+        for spec in specs:
+            found = [r for r in rec2 if r.name == spec['name']]
+            if not found:
+                ctx.violation('interface-missing', 'no interface of the declared name comes back (second parse of '
+                              'the same text)', inp, observed=[r.name for r in rec2], expected=spec['name'])
                 continue
-            if (q.name, q.sigIn, q.sigOut) != (m.name, m.sigIn, m.sigOut):
-                ctx.violation('method-signature', 'recovered method has other signatures', inp,
-                              observed=[q.name, q.sigIn, q.sigOut], expected=[m.name, m.sigIn, m.sigOut])
-            if (q.nargs, q.nret) != (m.nargs, m.nret):
-                ctx.violation('method-counts', 'recovered method has other argument counts', inp,
-                              observed=[n, q.nargs, q.nret], expected=[n, m.nargs, m.nret])
-            if fm is not None and n in fm['m'] and fm['m'][n][4] is not None:
-                want = (fm['m'][n][4], fm['m'][n][5])
-                if (m.nargs, m.nret) != want:
-                    ctx.violation('declared-miscount', 'addMethod counts other than one argument per complete type',
-                                  inp, observed=[n, m.sigIn, m.sigOut, m.nargs, m.nret], expected=list(want))
-        if set(r.signals) != set(d.signals):
-            ctx.violation('signal-set', 'recovered interface has other signals', inp,
-                          observed=sorted(r.signals), expected=sorted(d.signals))
-        for n, s in d.signals.items():
-            q = r.signals.get(n)
-            if q is None:
-                continue
-            if (q.name, q.sig, q.nargs) != (s.name, s.sig, s.nargs):
-                ctx.violation('signal-signature', 'recovered signal differs', inp,
-                              observed=[q.name, q.sig, q.nargs], expected=[s.name, s.sig, s.nargs])
-            if fm is not None and n in fm['s'] and fm['s'][n][3] is not None and s.nargs != fm['s'][n][3]:
-                ctx.violation('declared-miscount', 'addSignal counts other than one argument per complete type',
-                              inp, observed=[n, s.sig, s.nargs], expected=fm['s'][n][3])
-        if set(r.properties) != set(d.properties):
-            ctx.violation('property-set', 'recovered interface has other properties', inp,
-                          observed=sorted(r.properties), expected=sorted(d.properties))
-        for n, p in d.properties.items():
-            q = r.properties.get(n)
-            if q is None:
-                continue
-            if (q.name, q.sig, q.access) != (p.name, p.sig, p.access):
-                ctx.violation('property-type-access', 'recovered property has another type or access mode', inp,
-                              observed=[q.name, q.sig, q.access], expected=[p.name, p.sig, p.access])
-            ctx.stat('emits %s -> %r' % (p.emits, q.emits))
-    # proxy: accepts exactly the calls the exporter declared (only when nothing stale was reused)
-    stale = (not case['replace']) and any(d.name in cache_before for d in declared)
-    std_known = (not case['replace']) and any(n in cache_before for n in STD_NAMES)
+            mm = definition_mismatches(spec, found[0])
+            if mm and case['replace']:
+                ctx.violation('replaced-definition-not-seen-later', 'after a parse with replacement a default-mode '
+                              'parse of the same text does not return the declared definition (%s)' % mm[0][0],
+                              inp, observed=mm[0][2], expected=mm[0][3])
+            elif mm:
+                ctx.violation('second-parse-' + mm[0][0], 'a replacing parse after a default-mode parse of the same '
+                              'text: ' + mm[0][1], inp, observed=mm[0][2], expected=mm[0][3])
+    elif 'result2' in obs:
+        ctx.violation('roundtrip-raises', 'parsing the same generated XML a second time (other flag) raises',
+                      inp, observed=obs.get('result2'), expected='a list of interfaces')
+    # proxy: accepts exactly the calls the exporter declared (only when no known definition was reused)
+    stale = (not case['replace']) and any(sp['name'] in known_names for sp in specs)
+    std_known = (not case['replace']) and any(n in known_names for n in STD_NAMES)
     if not stale and not std_known:
         got = obs['calls'].split(',')[1:]
         for (f, m, n), g in zip(case['queries'], got):
-            want = expected_call(declared, f, m, n)
-            if want is not None and want != g:
+            want = expected_calls(specs, f, m, n)
+            if want is not None and g not in want:
                 ctx.violation('proxy-accepts-differently', 'a proxy built from the XML accepts/rejects a call '
-                              'differently from the declaration', inp, observed=[f, m, n, g], expected=want)
+                              'differently from the declaration', inp, observed=[f, m, n, g], expected=sorted(want))
 
 
-def expected_call(declared, f, m, n):
-    """from the declaration alone: the first declared interface (matching the filter) that has the method
-    decides; a method none of them has is unknown unless a standard interface names it (then not judged)"""
-    from txdbus import introspection
-    for d in declared:
-        if f and f != d.name:
-            continue
-        v = d.methods.get(m)
-        if v is not None:
-            if n != v.nargs:
-                return 'T'
-            return ':'.join(['S', enc(d.name), enc(v.sigIn), enc(v.sigOut)])
-    if ('name="%s"' % m) in introspection._intro:
+def expected_calls(specs, f, m, n):
+    """from the declaration alone: the set of acceptable outcomes.  A declared interface (matching the
+    `interface=` keyword when given) that has the method decides; when several have it and no keyword selects
+    one, any of them may (the order of lookup is not part of the statement).  A method no declared interface
+    has is unknown - unless a standard interface names it (then not judged: None)."""
+    cands = [sp for sp in specs if (not f or f == sp['name']) and m in sp['m']]
+    if not f and m in STD_METHOD_NAMES:
+        return None     # a standard interface has a method of this name too: which one answers is a matter of order
+    if cands:
+        out = set()
+        for sp in cands:
+            si, so, na, _ = sp['m'][m]
+            out.add('T' if n != na else ':'.join(['S', enc(sp['name']), enc(si), enc(so)]))
+        return out
+    if m in STD_METHOD_NAMES:
         return None
-    return 'A'
+    return {'A'}
 
 
 # ------------------------------------------------------------------------------------------------ handler stream
@@ -898,6 +1010,18 @@ def doc_stats(ctx, case):
                             if op[0] == 'p' and same_sig and op[3:5] != seen[key][3:5]:
                                 ctx.stat('redeclared-after-read property same type, other access')
                         seen[key] = op
+    for p, ifs in case['objs']:
+        if p == case['path']:
+            for d in ifs:
+                ops = [o for o in d['ops']]
+                tail = [o[0] for o in ops[-3:]]
+                for k in ('dm', 'ds', 'dp'):
+                    if tail[-2:] == ['x', k] or tail[-3:] == ['x', k, 'x']:
+                        ctx.stat('history ends: read XML, %s, no later mutator' % k)
+        elif ifs:
+            ctx.stat('another exported object carries interfaces')
+    if case['path'] != '/' and case['path'].endswith('/'):
+        ctx.stat('query path with trailing slash')
     ctx.stat('replace=%d known=%d' % (case['replace'], len(case['known'])))
     ctx.stat('objkind=' + case['objkind'])
     if any(d.get('same_object') for d in case['known']):
@@ -932,7 +1056,7 @@ def run_docs(ctx, cases, malformed=False):
         ctx.case('parse-result', nontrivial=nt)
         ctx.case('proxy-calls', nontrivial=nt)
         if m is not None:
-            mev, mres, mcalls = split_model_doc(m)
+            mev, mres, mcalls, mres2 = split_model_doc(m)
             if 'events' not in obs:
                 if m != obs['line']:
                     ctx.disagree('gen-events', c, m, obs['line'])
@@ -943,6 +1067,8 @@ def run_docs(ctx, cases, malformed=False):
                     ctx.disagree('parse-result', c, mres, obs.get('result'))
                 if mcalls != obs.get('calls'):
                     ctx.disagree('proxy-calls', c, mcalls, obs.get('calls'))
+                if mres2 != obs.get('result2'):
+                    ctx.disagree('parse-result', c, mres2, obs.get('result2'), detail='second parse (other flag)')
         judge_doc(ctx, c, obs)
 
 
@@ -981,12 +1107,16 @@ def fixed_cases():
                                          ['x'], ['p', 'P', 'i', 1, 1, 't'], ['x'], ['p', 'P', 'i', 1, 1, 'f'],
                                          ['m', 'M', 'i', '', 1, 0], ['x'], ['s', 'S', 's', 1], ['x'],
                                          ['p', 'P', 'i', 0, 1, 'f']]}
+    enddm = {'name': 'org.a.F', 'ops': [['m', 'A', 'i', '', 1, 0], ['m', 'B', 's', 's', 1, 1], ['x'], ['dm', 'A']]}
+    endds = {'name': 'org.a.G', 'ops': [['s', 'A', 'i', 1], ['s', 'B', 's', 1], ['x'], ['ds', 'B'], ['x']]}
+    enddp = {'name': 'org.a.H', 'ops': [['p', 'A', 'i', 1, 0, 't'], ['p', 'B', 's', 1, 1, 'f'], ['x'], ['dp', 'A']]}
     peer = {'name': 'org.freedesktop.DBus.Peer', 'ops': [['m', 'Ping', 'i', '', 1, 0]]}
     qs = [[None, 'Foo', 3], [None, 'Foo', 2], ['org.a.B', 'Z', 0], ['', 'Z', 1], [None, 'Ping', 0], ['org.a.B', 'Ping', 0],
           [None, 'M', 2], [None, 'M', 1], [None, 'A', 1], [None, 'B', 1]]
     return [doc([a], queries=qs), doc([a], replace=1, queries=qs), doc([a], known=[stale], queries=qs),
             doc([a], known=[stale], replace=1, queries=qs), doc([a, same_name, cached], queries=qs),
             doc([a, same_name, cached], objkind='dbusobject', queries=qs + [[None, 'GetAll', 1], [None, 'Set', 3]]),
+            doc([enddm, endds, enddp], queries=qs), doc([enddm, endds, enddp], replace=1, queries=qs),
             doc([redecl], queries=qs + [[None, 'M', 1]]), doc([redecl, a], replace=1, queries=qs),
             doc([], queries=qs), doc([a], known=[peer], queries=qs), doc([a], known=[peer], replace=1, queries=qs),
             doc([{'name': 'x.y', 'ops': []}], queries=qs)]
@@ -1001,10 +1131,10 @@ def run(ctx):
         else:
             run_docs(ctx, [c], malformed=bool(c.get('malformed')))
     run_docs(ctx, fixed_cases())
-    n = ctx.scale(quick=2000, thorough=50000)
+    n = ctx.scale(quick=1500, thorough=50000)
     run_docs(ctx, [gen_doc(ctx.rng) for _ in range(n)])
-    run_evs(ctx, [gen_evs(ctx.rng) for _ in range(ctx.scale(quick=2000, thorough=50000))])
-    run_docs(ctx, [gen_doc(ctx.rng, malformed=True) for _ in range(ctx.scale(quick=400, thorough=8000))],
+    run_evs(ctx, [gen_evs(ctx.rng) for _ in range(ctx.scale(quick=1500, thorough=50000))])
+    run_docs(ctx, [gen_doc(ctx.rng, malformed=True) for _ in range(ctx.scale(quick=300, thorough=8000))],
              malformed=True)
 
 
